@@ -435,14 +435,56 @@ def rule_gadgets(repo, rule):
                        "division is not tied by  quotient * divisor = dividend - remainder  over two fresh witnesses", "divmod/relation")
     else:
         rule.ok(dm.loc(cons[0]), dm.fq, norm(cons[0]), "%s * %s = %s - %s" % (q, divisor, s_, r))
-        for meth, args, why in (("assert_lt", [divisor], "remainder < divisor"), ("assert_positive", None, "remainder >= 0")):
-            hit = [c for s in arm.body for c in ast.walk(s) if isinstance(c, ast.Call) and isinstance(c.func, ast.Attribute)
-                   and c.func.attr == meth and norm(c.func.value) == r and (args is None or [norm(a) for a in c.args[:len(args)]] == args)]
-            if hit:
-                rule.ok(dm.loc(hit[0]), dm.fq, norm(hit[0]), why)
+        # the remainder's window, path by path: the range assertions executed on the way to each return of the arm must pin the
+        # remainder to |divisor| consecutive values - [0, d) (d > 0) or (d, 0] (d < 0).  One value more and the prover may
+        # shift the quotient by one.
+        from ..hints import paths_to as _ptr
+        D_ = P.sym(divisor)
+        rcalls = [c for s in arm.body for c in ast.walk(s) if isinstance(c, ast.Call) and isinstance(c.func, ast.Attribute)
+                  and norm(c.func.value) == r and c.func.attr in ("assert_lt", "assert_le", "assert_gt", "assert_ge", "assert_positive", "assert_range")]
+        arm_rets = [n for s2 in arm.body for n in ast.walk(s2) if isinstance(n, ast.Return) and n.value is not None and norm(n.value) != "NotImplemented"]
+        windows = {}
+        for rt_ in arm_rets:
+            for pth in _ptr(dm.node, rt_) or []:
+                lo, hi = [], []          # inclusive lower bounds, exclusive upper bounds (polynomials in the divisor)
+                for c in rcalls:
+                    gov = []
+                    ch = c
+                    for p_ in parents(c):
+                        if isinstance(p_, ast.If):
+                            gov.append((p_, any(ch is b_ or any(ch is y_ for y_ in ast.walk(b_)) for b_ in p_.body)))
+                        if p_ is dm.node:
+                            break
+                    if not all(any(t_ is g_.test and pol_ == inb_ for t_, pol_ in pth.conds) for g_, inb_ in gov):
+                        continue
+                    ps = [poly_of(a_, {divisor: D_}, strict=True) for a_ in c.args]
+                    m_ = c.func.attr
+                    if m_ == "assert_positive":
+                        lo.append(P())
+                    elif ps and ps[0] is not None and m_ == "assert_lt":
+                        hi.append(ps[0])
+                    elif ps and ps[0] is not None and m_ == "assert_le":
+                        hi.append(ps[0] + 1)
+                    elif ps and ps[0] is not None and m_ == "assert_gt":
+                        lo.append(ps[0] + 1)
+                    elif ps and ps[0] is not None and m_ == "assert_ge":
+                        lo.append(ps[0])
+                    elif len(ps) >= 2 and None not in ps[:2] and m_ == "assert_range":
+                        lo.append(ps[0])
+                        hi.append(ps[1])
+                windows.setdefault((tuple(str(x) for x in lo), tuple(str(x) for x in hi)), (lo, hi, rt_))
+        for (_kl, _kh), (lo, hi, rt_) in sorted(windows.items()):
+            good = (any(l_.is_zero() for l_ in lo) and any(h_ == D_ for h_ in hi)) or \
+                   (any(l_ == D_ + 1 for l_ in lo) and any(h_ == P.const(1) for h_ in hi))
+            txt = "%s in [%s, %s)" % (r, " / ".join(_kl) or "-inf", " / ".join(_kh) or "+inf")
+            if good:
+                rule.ok(dm.loc(rt_), dm.fq, txt, "remainder pinned to |divisor| consecutive values")
             else:
-                rule.violation(dm.loc(arm), dm.fq, "%s.%s(%s)" % (r, meth, ", ".join(args or [])), "range check missing or applied to "
-                               "the wrong value: %s is not enforced, so the prover may shift the quotient" % why, "divmod/%s" % meth)
+                rule.violation(dm.loc(rt_), dm.fq, txt, "range check missing, applied to the wrong value or one value too wide: the remainder is "
+                               "not confined to [0, divisor) (or (divisor, 0] for a negative divisor), so the prover may shift the quotient",
+                               "divmod/remainder-window")
+        if not windows:
+            rule.violation(dm.loc(arm), dm.fq, "no return of the secret arm reached", "remainder range not established", "divmod/remainder-window")
         # the relation is over the FIELD: quotient * divisor must not wrap around, so the quotient needs a range bound too
         RANGE = ("assert_positive", "assert_range", "check_positive", "to_bits", "assert_lt", "assert_le", "assert_gt", "assert_ge")
         qhit = [c for s in arm.body for c in ast.walk(s) if isinstance(c, ast.Call) and isinstance(c.func, ast.Attribute)
